@@ -1390,6 +1390,10 @@ package otto
 //@   props C16
 //@   safety C02 C16
 //@   requires o != nil && jsValue(value)
+// a write past the end grows the slice only at index == length (the slot push() uses); any
+// other index outside the slice is refused, never redirected to the end
+//@   calls reflect.(reflect.Value).Len(_) as ln when false
+//@   at_call reflect.Append : called(ln) && int64(ln) == index
 //@ func (goArrayObject).setValue
 //@   props C16
 //@   safety C02 C16
@@ -1535,6 +1539,40 @@ package otto
 //@ spec nanValue(v Value) bool = v.kind == valueNumber && is(v.value, float64) && isNaN(v.value.(float64))
 // TimeClip, ES5 15.9.1.14: a time value is a finite number of at most 8.64e15 ms magnitude
 //@ spec validTime(t float64) bool = !isNaN(t) && !isInf(t) && fabs(t) <= 8640000000000000.0
+
+// 15.9.5.27 setTime: the time value becomes TimeClip(ToNumber(time)) - the conversion result goes
+// to dateObject.Set unchanged, the receiver's [[PrimitiveValue]] is replaced and the new time
+// value returned.  (UTC / new Date: stated for primitive arguments, as newDateTime's own contract is.)  15.9.4.3 Date.UTC and 15.9.3 new Date hand the argument list to newDateTime
+// unchanged, in UTC resp. local time, and use its result as the time value.
+//@ func builtinDateSetTime
+//@   props C12
+//@   nosafety
+//@   requires call.runtime != nil && wfCall(call) && argsOK(call.ArgumentList)
+//@   stable call.ArgumentList
+//@   calls (Value).float64(_) as t
+//@   calls (*dateObject).Set(_, _)
+//@   at_call (*dateObject).Set : called(t) && sameFloat(arg1, t)
+//@   at_call (Value).float64 : arg0 == argOf(call, 0)
+//@ spec primArgs(a []Value) bool = forall i int :: 0 <= i && i < len(a) && i < 7 ==> jsValue(a[i]) && a[i].kind != valueObject
+//@ func builtinDateUTC
+//@   props C12
+//@   nosafety
+//@   requires primArgs(call.ArgumentList)
+//@   stable call.ArgumentList
+//@   calls newDateTime(_, _) as ms
+//@   at_call newDateTime : arg0 == call.ArgumentList && arg1 == time.UTC
+//@   ensures called(ms) && result.kind == valueNumber && is(result.value, float64) && sameFloat(result.value.(float64), ms)
+//@ func builtinNewDate
+//@   props C12
+//@   nosafety
+//@   requires obj != nil && obj.runtime != nil && primArgs(argumentList)
+//@   stable argumentList
+//@   calls newDateTime(_, _) as ms
+//@   calls (*runtime).newDate(_, _) as o
+//@   at_call newDateTime : arg0 == argumentList && arg1 == time.Local
+//@   at_call (*runtime).newDate : arg0 == obj.runtime && called(ms) && sameFloat(arg1, ms)
+//@   ensures called(o) && result.kind == valueObject && is(result.value, *object) && result.value.(*object) == o
+
 
 // The dateObject invariant: the date is invalid exactly when its time value is NaN; a
 // valid date carries ToInteger of the time value it was set to (15.9.1.14), an invalid
@@ -3355,6 +3393,36 @@ package otto
 //@   at_call (*object).call : arg0 == compare && arg1 == Value{} && len(arg2) == 2 && (index0 != index1 ==> arg2[0] == x && arg2[1] == y)
 //@   ensures index0 != index1 ==> (!hj && !hk ==> result == 0) && (!hj && hk ==> result == 1) && (hj && !hk ==> result == -1)
 //@   ensures index0 != index1 && hj && hk ==> called(x) && called(y) && (x.kind == valueUndefined && y.kind == valueUndefined ==> result == 0) && (x.kind == valueUndefined && y.kind != valueUndefined ==> result == 1) && (x.kind != valueUndefined && y.kind == valueUndefined ==> result == -1)
+
+// 15.4.4.11: sort reads, writes and deletes only the positions 0 .. len-1 of the receiver.  The
+// partition step works inside [left, right] (every comparison and every exchange names two
+// positions of that range) and returns the bounds of the block equal to the pivot, inside the
+// range; the recursion descends into sub-ranges of [left, right]; the built-in starts it on
+// [0, len-1].  (That the result is a permutation in order is not specified here: the comparison
+// function is arbitrary script code.)
+//@ func arraySortQuickPartition
+//@   props C08
+//@   safety C02 C08
+//@   requires thisObject != nil && left <= pivot && pivot <= right && right <= 4294967295
+//@   at_call arraySortSwap : arg0 == thisObject && left <= arg1 && arg1 <= right && left <= arg2 && arg2 <= right
+//@   at_call sortCompare : arg0 == thisObject && left <= arg1 && arg1 <= right && arg2 == right && arg3 == compare
+//@   invariant@1 left <= cursor && cursor <= cursor2 && cursor2 <= index && index <= right
+//@   ensures left <= result0 && result0 <= result1 && result1 <= right
+//@ func arraySortQuickSort
+//@   props C08
+//@   safety C02 C08
+//@   requires thisObject != nil && right <= 4294967295
+//@   at_call arraySortQuickPartition : arg0 == thisObject && arg1 == left && arg2 == right && left <= arg3 && arg3 <= right && arg4 == compare
+//@   at_call arraySortQuickSort : arg0 == thisObject && left <= arg1 && arg2 <= right && arg3 == compare
+//@   nocall arraySortQuickPartition(_, _, _, _, _) when left >= right
+//@ func builtinArraySort
+//@   props C08
+//@   nosafety
+//@   requires wfCall(call) && argsOK(call.ArgumentList) && call.runtime != nil
+//@   stable call.ArgumentList
+//@   calls toUint32(_) as n
+//@   at_call arraySortQuickSort : called(n) && arg1 == 0 && uint32(arg2) == n - 1 && n > 1 && arg2 <= 4294967295
+
 
 // The exchange step of the sort: elements j and k trade places, a missing element stays
 // missing on the other side ([[Delete]] there, [[Put]] here), all with throw = true.
